@@ -26,6 +26,16 @@ type txProbe struct {
 	cbAfter    int32 // callbacks that started after doneSeen was set
 	errAtDone  atomic.Value
 	errChanged int32
+	// slowFinally makes the completion callback take this long (real-time histories only): the
+	// real callbacks delete from a transaction store under its lock, so completion is not instantaneous.
+	slowFinally time.Duration
+}
+
+func (p *txProbe) finallyCb() {
+	atomic.AddInt32(&p.finally, 1)
+	if p.slowFinally > 0 {
+		time.Sleep(p.slowFinally)
+	}
 }
 
 var errA, errB = errors.New("failure A"), errors.New("failure B")
@@ -77,12 +87,12 @@ func newRetry(ctx context.Context, p *txProbe, rd time.Duration, rc uint, cbErrA
 			return errB
 		}
 		return nil
-	}, func() { atomic.AddInt32(&p.finally, 1) })
+	}, p.finallyCb)
 	return &txHandle{tx: tx, kind: "retry", proceed: func(d int) { tx.Proceed("st", d) }}
 }
 
 func newTimed(ctx context.Context, p *txProbe, timeout time.Duration) *txHandle {
-	tx := transactions.NewTimedTransaction(ctx, timeout, func() { atomic.AddInt32(&p.finally, 1) })
+	tx := transactions.NewTimedTransaction(ctx, timeout, p.finallyCb)
 	return &txHandle{tx: tx, kind: "timed", proceed: func(int) {}}
 }
 
@@ -262,6 +272,9 @@ func TestC18(t *testing.T) {
 			rd := delays[rng.Intn(len(delays))]
 			rc := uint(rng.Intn(3))
 			timed := rng.Intn(3) == 0
+			if rng.Intn(2) == 0 {
+				p.slowFinally = 500 * time.Microsecond
+			}
 			ctx, cancel := context.WithCancel(context.Background())
 			var h *txHandle
 			if timed {
@@ -278,7 +291,13 @@ func TestC18(t *testing.T) {
 					plan[i] = append(plan[i], []string{"success", "failA", "proceed", "failB", "cancel"}[rng.Intn(5)])
 				}
 			}
-			ops := fmt.Sprintf("rd=%v rc=%d timed=%v goroutines=%v", rd, rc, timed, plan)
+			if rng.Intn(4) == 0 {
+				// several acknowledgements of one exchange at once (duplicated datagrams)
+				for i := range plan {
+					plan[i][0] = "success"
+				}
+			}
+			ops := fmt.Sprintf("rd=%v rc=%d timed=%v slow-finally=%v goroutines=%v", rd, rc, timed, p.slowFinally, plan)
 			for i := 0; i < g; i++ {
 				wg.Add(1)
 				go func(i int) {
@@ -307,5 +326,5 @@ func TestC18(t *testing.T) {
 			}
 		}
 	})
-	r.Finish("(a) every sequence of 1..4 operations over {Success, Fail(A), Fail(B), Proceed, advance one RetryDelay, cancel context} (1554 sequences) on 5 transaction variants (retry with RetryCount 0/1/2, retry whose callback fails, timed) in lock-step virtual time; (b) 1-3 completion calls scheduled for the very virtual instant a retry/timeout timer fires; (c) 2-4 goroutines issuing completion calls with 0/1ns/1us/20us/200us real delays against timers of the same size. Oracle after every step and at the end: Err() constant once Done is closed, completion callback count exactly 1, no retry callback starting after Done was observed closed; (d) the client's sleep transaction through the real Client.Sleep against a scripted gateway: DISCONNECT replies instantly / exactly at / just before the retry timer's instant / never, PINGRESP instantly / at the 60 s limit / never / duplicated, Close() at timer instants - in virtual time (RetryDelay 2 s) and in real time with RetryDelay 0..1 ms; oracle: Sleep returns, and (in histories without Close) after it returned no DISCONNECT retransmission and no waking PINGREQ is sent. The 'race' phase runs the same list under the race detector and any report located in package transactions or in client.sleepTransaction decides. Distinct by (variant, operation sequence).", nil)
+	r.Finish("(a) every sequence of 1..4 operations over {Success, Fail(A), Fail(B), Proceed, advance one RetryDelay, cancel context} (1554 sequences) on 5 transaction variants (retry with RetryCount 0/1/2, retry whose callback fails, timed) in lock-step virtual time; (b) 1-3 completion calls scheduled for the very virtual instant a retry/timeout timer fires; (c) 2-4 goroutines issuing completion calls with 0/1ns/1us/20us/200us real delays against timers of the same size, in half of these histories with a completion callback that takes 500 us (two completions that both pass the 'already done?' test then both run it). Oracle after every step and at the end: Err() constant once Done is closed, completion callback count exactly 1, no retry callback starting after Done was observed closed; (d) the client's sleep transaction through the real Client.Sleep against a scripted gateway: DISCONNECT replies instantly / exactly at / just before the retry timer's instant / never, PINGRESP instantly / at the 60 s limit / never / duplicated, Close() at timer instants - in virtual time (RetryDelay 2 s) and in real time with RetryDelay 0..1 ms; oracle: Sleep returns, and (in histories without Close) after it returned no DISCONNECT retransmission and no waking PINGREQ is sent. The 'race' phase runs the same list under the race detector and any report located in package transactions or in client.sleepTransaction decides. Distinct by (variant, operation sequence).", nil)
 }
